@@ -1,4 +1,5 @@
 import RxProofs.Lemmas.PureTimeConv
+import RxProofs.Lemmas.PureRd
 /-!
 # C36 — time values convert consistently between representations
 
@@ -77,6 +78,21 @@ theorem float_roundtrip_us {rn} (R : Rounding rn) (us : Int)
   · exact h
   · rw [(fromTimestamp_eq_usOfFloat R _).1]
     simpa [toSeconds, Secs.val, toTimedelta] using h
+
+/-- **rd_is_rounding.** The executable IEEE-754 binary64 round-to-nearest-even used by the driver (and
+compared exactly with CPython's doubles on every run) IS a `Rounding`: monotone, exact on the
+integers up to 2^53, relative error at most 2^-53 — for every rational (normal range model). -/
+theorem rd_is_rounding : Rounding rd := rd_rounding
+
+/-- the float-leg theorems instantiated with the executable rounding -/
+theorem float_legs_rd :
+    (∀ a b : Int, a ≤ b → (toSeconds rd (.td a)).val ≤ (toSeconds rd (.td b)).val) ∧
+    (∀ x y : Rat, x ≤ y → toTimedelta rd (.flt x) ≤ toTimedelta rd (.flt y)) ∧
+    (∀ x y : Rat, x ≤ y → toDatetime rd (.flt x) ≤ toDatetime rd (.flt y)) ∧
+    (∀ us : Int, -(4503599627370496 - 1048576) ≤ us → us ≤ 4503599627370496 - 1048576 →
+      toTimedelta rd (.flt (toSeconds rd (.td us)).val) = us ∧ toDatetime rd (.flt (toSeconds rd (.dt us)).val) = us) :=
+  ⟨fun _ _ h => (to_seconds_monotone rd_rounding h).1, (to_timedelta_monotone rd_rounding).1,
+   (to_datetime_monotone rd_rounding).1, fun us h1 h2 => float_roundtrip_us rd_rounding us h1 h2⟩
 
 /-! ## non-vacuity: the hypotheses are satisfiable (exact arithmetic is a `Rounding`), and the bounds are met -/
 theorem rounding_id : Rounding (fun x => x) where
